@@ -23,3 +23,37 @@ BUDGETS = {
     "C08": _b(3500),
     "C19": _b(7000),
 }
+
+
+# Reach probes / fired counters that must be non-zero when a batch ran at least half of
+# its tier budget: a probe stuck at zero means the workload or fault mix lost its reach,
+# which is a harness error (exit 2), never a silent pass.
+REQUIRED = {
+    "C01": ["collision_free_row_exact", "key_collides_in_every_row", "truth_at_or_past_ceiling", "live_query_events",
+            "restart_to_older_snapshot", "#deliver", "#crash_restart", "#dup", "#drop"],
+    "C02": ["final_convergence_checked", "rank_ge_33", "register_at_maximum_rank", "#deliver", "#dup", "#drop", "#partition",
+            "#crash_restart"],
+    "C03": ["query_answers_checked", "nul_aliased_identities_share_a_cell", "pool_has_key_longer_than_max_key_len", "#deliver",
+            "#crash_restart"],
+    "C04": ["dominating_key_checked", "dominating_key_with_collisions", "majority_key_checked", "#deliver", "#crash_restart"],
+    "C05": ["add_cut_short_by_ceiling", "conservative_update_skipped_a_row", "log_add_in_probabilistic_range",
+            "log_add_in_reserved_range", "#deliver"],
+    "C06": ["batch_refilled", "decode_steps_checked", "key_beyond_reserved_range", "law_above", "law_below", "law_at_maximum",
+            "law_in_reserved_range", "probabilistic_decisions_mirrored"],
+    "C08": ["filler_blocked_on_full_queue", "generator_items", "odd_sketch_carried_in_merge_round", "one_worker_took_every_item",
+            "worker_got_only_the_poison_pill", "#line_preemptions_in_helpers"],
+    "C09": ["merge_cells_in_log_range", "merge_saturated_cell", "merges_checked"],
+    "C10": ["events_after_restart_compared", "foreign_loader_rejected", "restart_to_older_snapshot", "restarts_checked",
+            "round_trips_checked", "shared_loads_checked_through_a_peer"],
+    "C12": ["entry_add", "entry_add_ngram", "entry_update_dict", "entry_update_list", "entry_update_ngram", "ngram_len_eq_n",
+            "ngram_len_gt_n", "ngram_len_lt_n"],
+    "C13": ["queries_checked", "repeat_query_changed_threshold", "repeat_query_same_threshold", "#deliver", "#attach"],
+    "C15": ["agreeing_merges_checked", "refusals_checked:depth", "refusals_checked:max_count", "refusals_checked:mkl",
+            "refusals_checked:num_reserved", "refusals_checked:p", "refusals_checked:seed", "refusals_checked:width",
+            "refusals_checked:family"],
+    "C16": ["events_routed_through_a_view", "events_with_views_compared", "hh_key_area_not_multiple_of_4", "owner_drops_checked",
+            "owner_drops_checked_owner_first", "unaligned_bookkeeping_offset", "view_drops_checked"],
+    "C18": ["ctor_accepted", "ctor_raised_ValueError", "lone_hh_key_checked", "op_on_saturated_key"],
+    "C19": ["callback_raised", "worker_died", "parallel_add_raised_after_death", "kills_issued", "filler_blocked_on_full_queue",
+            "#line_preemptions_in_helpers"],
+}
